@@ -3,7 +3,7 @@
    every class has a prototype, uniqueness under distinct weights. *)
 From Coq Require Import List Arith Bool ZArith Lia Permutation.
 From OPF Require Import Base.Lists Model.Heap Model.Sup Spec.Paths Spec.Trees
-  Proofs.HeapBase Proofs.HeapInv Proofs.PrimLists Proofs.PrimGraph Proofs.PrimLoop.
+  Proofs.HeapBase Proofs.HeapInv Proofs.PrimLists Proofs.PrimGraph Proofs.PrimLoop Proofs.PrimWeight.
 Import ListNotations.
 Open Scope nat_scope.
 
@@ -88,6 +88,14 @@ Section Main.
     - intros q Hq. apply (grown_root_of _ _ Hg 0 (Hall 0 ltac:(lia)) H0 q (Hall q Hq)).
   Qed.
 
+  Theorem prim_spanning_parent_map : spanning_parent_map n pred.
+  Proof.
+    destruct prim_spanning_tree as (H0 & (ord & _ & Hpar) & Hroot).
+    exists 0. split; [lia|]. split; [exact H0|]. intros q Hq. split; [apply Hroot; exact Hq|].
+    intros p Hp. destruct (Nat.eq_dec q 0) as [->|Hne]; [congruence|].
+    destruct (Hpar q ltac:(lia)) as (p' & Hp' & Hlt & _). congruence.
+  Qed.
+
   (* ---------------------------------------------------------------- *)
   (* 2. minimax tree                                                   *)
 
@@ -138,6 +146,16 @@ Section Main.
       intros u v tp Hu Hv Htp a b Hab.
       pose proof (prim_minimax_tree (w u v) u v tp [u; v] Htp (path_from_to_pair n u v Hu Hv)) as H.
       cbn [pathmax] in H. pose proof (pathmax_arc w (w u v) tp a b Hab). lia.
+    Qed.
+
+    (* 6. minimum total weight *)
+    Theorem prim_minimum_weight :
+      forall predS, spanning_parent_map n predS ->
+        (tree_weight n w pred <= tree_weight n w predS)%Z.
+    Proof.
+      intros predS HS.
+      exact (cycle_optimal_is_minimum n w _ predS w_sym prim_spanning_parent_map
+               prim_minimax_tree HS).
     Qed.
 
     (* 5. uniqueness *)
@@ -252,6 +270,12 @@ Section AtInit.
       init_lcost init_lpred init_lstat init_status.
   Definition init_prim_cycle_optimal :=
     prim_cycle_optimal top n w (nodes_init zero labels) n_pos w_top
+      init_lcost init_lpred init_lstat init_status.
+  Definition init_prim_spanning_parent_map :=
+    prim_spanning_parent_map top n w (nodes_init zero labels) n_pos w_top
+      init_lcost init_lpred init_lstat init_status.
+  Definition init_prim_minimum_weight :=
+    prim_minimum_weight top n w (nodes_init zero labels) n_pos w_top
       init_lcost init_lpred init_lstat init_status.
   Definition init_prim_tree_characterised :=
     prim_tree_characterised top n w (nodes_init zero labels) n_pos w_top
